@@ -171,9 +171,9 @@ def run(cmd, H):
                     forms.append("ndarray")
                 bytelike = isinstance(et, pydsdl.UnsignedIntegerType) and et.bit_length == 8
                 if bytelike:
-                    forms += ["bytes", "bytearray"]
+                    forms += ["bytes", "bytearray", "bytes_digits", "bytearray_digits"]    # text that reads as a number is still n bytes
                     if var:     # only variable-length byte arrays document the implicit string encoding
-                        forms += ["str", "str_multibyte"]
+                        forms += ["str", "str_multibyte", "str_digits"]
                 for n, ok in lengths:
                     for form in forms:
                         if form == "list":
@@ -187,6 +187,12 @@ def run(cmd, H):
                             val = b"a" * n
                         elif form == "bytearray":
                             val = bytearray(b"b" * n)
+                        elif form == "bytes_digits":
+                            val = b"1" * n
+                        elif form == "bytearray_digits":
+                            val = bytearray(b"2" * n)
+                        elif form == "str_digits":
+                            val = "1" * n
                         elif form == "str":
                             val = "c" * n
                         else:
@@ -251,7 +257,17 @@ def run(cmd, H):
                     observe_union(t, o, "after building from a value")
                 b1 = b"".join(bytes(x) for x in ns.serialize(o))
                 bi = ns.to_builtin(o)
+                bi_before = repr(bi)
                 o2 = ns.update_from_builtin(cls(), bi)
+                # the built-in form belongs to the caller: converting must not consume or alter it, and a second conversion of the
+                # same form must give the same object
+                if repr(bi) != bi_before:
+                    refute("update_from_builtin altered the caller's built-in representation of %s" % key, type=key, before=bi_before[:300], after=repr(bi)[:300])
+                else:
+                    o2b = ns.update_from_builtin(cls(), bi)
+                    if b"".join(bytes(x) for x in ns.serialize(o2b)) != b"".join(bytes(x) for x in ns.serialize(o2)):
+                        refute("a second update_from_builtin from the same built-in form gives another object for %s" % key, type=key, builtin=bi_before[:300])
+                    C["builtin_source_unchanged"] += 1
                 if is_union:
                     observe_union(t, o2, "after update_from_builtin")
                 b2 = b"".join(bytes(x) for x in ns.serialize(o2))
